@@ -36,6 +36,10 @@ def gen(ctx):
             yield Case("XPT", "over %s %s" % (kind, mode), tags=("oversize",))
     yield Case("XPT", "rawaddr b", tags=("rawaddr",))
     yield Case("XPT", "rawaddr nb", tags=("rawaddr",))
+    # a socket created under a name whose earlier socket is still open (round 5: an "atomic takeover" that binds at a temporary
+    # path and renames it - the kernel keeps the bind-time path as the sender address)
+    yield Case("XPT", "rebind b", tags=("rebind",))
+    yield Case("XPT", "rebind nb", tags=("rebind",))
     # a nonblocking sender bursting at a receiver that only drains later (full kernel queue): received = exactly the acked sends
     yield Case("XPT", "late nb", tags=("late-receiver",))
     yield Case("XPT", "late nbs", tags=("late-receiver",))
@@ -86,7 +90,7 @@ def project(c, r):
 
 def classify(c, r):
     a = c.args.split(" ")
-    if a[0] in ("dead", "over", "rawaddr", "late"):
+    if a[0] in ("dead", "over", "rawaddr", "late", "rebind"):
         return [a[0] + ":" + r]
     inter = 0
     if r.startswith("SENT "):
@@ -102,11 +106,11 @@ def classify(c, r):
 
 def nontrivial(c, r):
     a = c.args.split(" ")
-    return a[0] not in ("dead", "over", "rawaddr", "late") and (int(a[2]) >= 2 or int(a[3]) >= 100)
+    return a[0] not in ("dead", "over", "rawaddr", "late", "rebind") and (int(a[2]) >= 2 or int(a[3]) >= 100)
 
 
 def oracle(c, impl_res):
     a = c.args.split(" ")
-    if a[0] in ("dead", "over", "rawaddr", "late"):
+    if a[0] in ("dead", "over", "rawaddr", "late", "rebind"):
         return ("ORC", "C19 %s @@ %s" % (a[0], impl_res))
     return ("ORC", "C19 %s %s %s %s %s @@ %s" % (a[2], a[3], a[4], a[5], a[1], impl_res))
